@@ -10,16 +10,17 @@ DL_EARLY = 1200                # cases expected to end early: any return before 
 STALE_DETECTABLE = ("ifin", "irst", "igarb", "fin", "rst", "garbage")
 
 
-def _line(n, tr, pool, dial, dl):
-    return "k%d tr=%s pool=%s dial=%s dl=%d" % (n, tr, ",".join(pool) or "-", ",".join(dial) or "-", dl)
+def _line(n, tr, pool, dial, dl, conc=1):
+    return "k%d tr=%s pool=%s dial=%s dl=%d%s" % (n, tr, ",".join(pool) or "-", ",".join(dial) or "-", dl,
+                                                 "" if conc == 1 else " conc=%d" % conc)
 
 
 def c14_gen(rng, tier):
     out = []
 
-    def add(tr, pool, dial, wait):
+    def add(tr, pool, dial, wait, conc=1):
         dl = rng.choice(DL_WAIT) if wait else DL_EARLY
-        out.append(_line(len(out), tr, pool, dial, dl))
+        out.append(_line(len(out), tr, pool, dial, dl, conc))
 
     reps = budget(tier, 1, 6)
     for _ in range(reps):
@@ -48,6 +49,10 @@ def c14_gen(rng, tier):
                 add(tr, [p], ["ok"], True)
             add(tr, ["ok"], ["ok"], False)
             add(tr, [rng.choice(STALE_DETECTABLE)], [rng.choice(["silent", "blackhole"])], True)
+            # every waiter of a dying pipelined connection is woken: n exchanges wait on the one pooled connection
+            add(tr, [rng.choice(["fin", "rst", "garbage"])], ["ok"], False, conc=rng.choice([2, 4, 8]))
+            add(tr, [rng.choice(["fin", "rst", "garbage"])], ["refuse"], False, conc=rng.choice([2, 4, 8]))
+            add(tr, ["silent"], ["ok"], True, conc=rng.choice([2, 4]))
         add("udp", ["ok"], ["ok"], False)
         add("udp", ["idown"], ["refuse"], False)
         add("udp", [rng.choice(["silent", "garbage", "half"])], ["ok"], True)
